@@ -79,13 +79,39 @@ def _binder_iter(fa: FA, name_node):
     return None
 
 
+def _prefix_tests(fa: FA):
+    """Tests "does the string S start with P", by what they compute: `S.startswith(P)`, `S[:len(P)] == P` (either operand
+    order, `!=` as well, the length through a temporary), `S.find(P) == 0`; in the function's own body, comprehensions and
+    lambda bodies included.  -> [(test node, S, P)]"""
+    nodes = list(A.walk_body(fa.node))
+    nodes += [x for lam in list(nodes) if isinstance(lam, ast.Lambda) for x in ast.walk(lam.body)]
+    out = []
+    for n in nodes:
+        if isinstance(n, ast.Call) and A.call_attr(n) == "startswith" and isinstance(n.func, ast.Attribute) and n.args:
+            out.append((n, n.func.value, n.args[0]))
+        elif isinstance(n, ast.Compare) and len(n.ops) == 1 and isinstance(n.ops[0], (ast.Eq, ast.NotEq)):
+            for (a, b) in ((n.left, n.comparators[0]), (n.comparators[0], n.left)):
+                if isinstance(a, ast.Subscript) and isinstance(a.slice, ast.Slice) and a.slice.step is None and a.slice.upper is not None \
+                        and (a.slice.lower is None or (isinstance(a.slice.lower, ast.Constant) and a.slice.lower.value == 0)):
+                    up = safe_expand(fa, a.slice.upper, n)
+                    if isinstance(up, ast.Call) and isinstance(up.func, ast.Name) and up.func.id == "len" and len(up.args) == 1 and not up.keywords \
+                            and A.norm(up.args[0]) == A.norm(safe_expand(fa, b, n)):
+                        out.append((n, a.value, b))
+                        break
+                if isinstance(a, ast.Call) and A.call_attr(a) == "find" and isinstance(a.func, ast.Attribute) and len(a.args) == 1 \
+                        and isinstance(b, ast.Constant) and b.value == 0 and type(b.value) is int:
+                    out.append((n, a.func.value, a.args[0]))
+                    break
+    return out
+
+
 def _forget_by_scan(ck, R, cm, ff, sw, sep):
     own = [p_ for p_ in ff.fi.params if p_ != "self"]
     slots = set()
-    for c in sw:
+    for (c, subj, pre) in sw:
         # the selection prefix, however it is spelled (concatenation / format / f-string, through temporaries), is
         # <function reference>.qualified_name followed by exactly the key separator
-        parts = A.str_parts(safe_expand(ff, c.args[0])) if c.args else None
+        parts = A.str_parts(safe_expand(ff, pre, c))
         ok = bool(parts) and len(parts) == 2 and parts[0][0] == "expr" and parts[1] == ("lit", sep) and bool(own) \
             and A.norm(parts[0][1]) == own[0] + ".qualified_name"
         ck.ob(R, ff.key(c, "prefix-terminated"), ok,
@@ -93,7 +119,7 @@ def _forget_by_scan(ck, R, cm, ff, sw, sep):
               "selection prefix is not terminated by the key separator %r: 'f#1' would also select 'f#10/...'" % sep,
               ff.where(c))
         # which table do the tested keys come from: the iterable that binds the tested variable (comprehension or loop)
-        it = _binder_iter(ff, A.call_recv(c))
+        it = _binder_iter(ff, subj)
         if it is not None:
             for a in A.attrs_in(it):
                 slots.add(a)
@@ -667,7 +693,7 @@ def check_forget_scope(ck, cm: CacheModel):
     kb.ck.need(len(seps) == 1, "cache key builder: cannot identify the separator constant")
     sep = seps[0]
     ff = FA(ck, "storage_base.MemoryCache.forget_function")
-    sw = ff.calls("startswith")
+    sw = _prefix_tests(ff)
     if sw:
         _forget_by_scan(ck, R, cm, ff, sw, sep)
     else:
@@ -835,15 +861,23 @@ def check_forget_scope(ck, cm: CacheModel):
             for i_ in ids_:
                 out_ |= fF.df.deps(e, i_)
             return out_
-        sw_all = list(fF.calls("startswith")) + [c_ for lam in A.walk_body(fF.node) if isinstance(lam, ast.Lambda)
-                                                 for c_ in ast.walk(lam.body) if isinstance(c_, ast.Call) and A.call_attr(c_) == "startswith"]
-        sel = [c for c in sw_all if _binder_iter(fF, A.call_recv(c)) is not None
-               and "attr:self." + tb in _deps_at(_binder_iter(fF, A.call_recv(c)), c)]
+        sw_all = _prefix_tests(fF)
+        sel = [(c, pre) for (c, subj, pre) in sw_all if _binder_iter(fF, subj) is not None
+               and "attr:self." + tb in _deps_at(_binder_iter(fF, subj), c)]
         def _is_tb(e, at, tb=tb):
             return A.norm(e) == "self." + tb or (bool(fF.nodes(at)) and "attr:self." + tb in fF.deps(e))
         rem = [n for n in A.walk_body(fF.node) if (isinstance(n, ast.Delete) and any(isinstance(t, ast.Subscript) and _is_tb(t.value, n) for t in n.targets))
                or (isinstance(n, ast.Call) and A.call_attr(n) == "pop" and _is_tb(A.call_recv(n), n))]
-        term = bool(sel) and all(c.args and ("const:'/'" in _deps_at(c.args[0], c)) and "qualified_name" in {d.split(".")[-1] for d in _deps_at(c.args[0], c) if d.startswith("attr:")} for c in sel)
+        ownF = [p_ for p_ in fF.fi.params if p_ != "self"]
+
+        def _terminated(c, pre):
+            """the prefix is <function reference>.qualified_name followed by exactly '/', however it is put together"""
+            parts = A.str_parts(safe_expand(fF, pre, c))
+            if parts is not None:
+                return len(parts) == 2 and parts[0][0] == "expr" and parts[1] == ("lit", "/") and bool(ownF) and A.norm(parts[0][1]) == ownF[0] + ".qualified_name"
+            d_ = _deps_at(pre, c)
+            return "const:'/'" in d_ and "qualified_name" in {x.split(".")[-1] for x in d_ if x.startswith("attr:")}
+        term = bool(sel) and all(_terminated(c, pre) for (c, pre) in sel)
         okT = bool(sel) and bool(rem) and term
         if tb == "result" and not sel:
             continue  # results are removed per memento by forget_call; a prefix sweep is optional
@@ -1607,17 +1641,48 @@ def _os_error_contained(fa: FA):
 
 def _walkers(ck, ls: FA):
     """The generators that enumerate a directory for list_keys_nonversioned: its nested functions, or -- when they were
-    hoisted out -- the methods of the same class it calls that contain a `yield`.  -> {name: FuncInfo}"""
+    hoisted out -- the methods of the same class / functions of the same module it refers to (called directly, or picked
+    into a variable that is called later) that contain a `yield`.  -> {name: FuncInfo}"""
     out = dict(ls.fi.nested)
     cls = ls.fi.cls
-    if cls is not None:
-        for c in ls.calls():
-            f = c.func
-            if isinstance(f, ast.Attribute) and isinstance(f.value, ast.Name) and f.value.id in ("self", "cls", cls.name) and f.attr in cls.methods:
-                m = cls.methods[f.attr]
-                if any(isinstance(y, (ast.Yield, ast.YieldFrom)) for y in A.walk_body(m.node)):
-                    out[f.attr] = m
+
+    def is_gen(fi):
+        return fi is not None and fi.node is not None and any(isinstance(y, (ast.Yield, ast.YieldFrom)) for y in A.walk_body(fi.node))
+
+    for n in A.walk_body(ls.node):
+        if cls is not None and isinstance(n, ast.Attribute) and isinstance(n.ctx, ast.Load) and isinstance(n.value, ast.Name) \
+                and n.value.id in ("self", "cls", cls.name) and n.attr in cls.methods and is_gen(cls.methods[n.attr]):
+            out[n.attr] = cls.methods[n.attr]
+        elif isinstance(n, ast.Name) and isinstance(n.ctx, ast.Load) and n.id not in out and not ls.df.is_local(n.id):
+            fi = ck.repo.try_func("%s.%s" % (ls.fi.qual.split(".")[0], n.id))
+            if is_gen(fi):
+                out[n.id] = fi
     return out
+
+
+def _walker_of_call(ls: FA, walkers, e, at_nodes=None):
+    """the walker(s) a call runs: `walk()`, `self._walk(..)`, or a local that every reaching definition binds to a walker
+    (`walker = self._a if recursive else self._b` ... `walker(..)`).  -> list of names (empty when `e` is no such call)"""
+    if not isinstance(e, ast.Call):
+        return []
+    f = e.func
+    if isinstance(f, ast.Attribute) and isinstance(f.value, ast.Name) and f.attr in walkers:
+        return [f.attr]
+    if isinstance(f, ast.Name):
+        ids = at_nodes if at_nodes else ls.nodes(e)
+        if f.id in walkers and not (ids and any(d.kind == "assign" for i in ids for d in ls.df.reaching(i, f.id))):
+            return [f.id]
+        names = []
+        for i in ids:
+            for alt in _alternatives(ls, f, i):
+                if isinstance(alt, ast.Attribute) and isinstance(alt.value, ast.Name) and alt.attr in walkers:
+                    names.append(alt.attr)
+                elif isinstance(alt, ast.Name) and alt.id in walkers and alt.id != f.id:
+                    names.append(alt.id)
+                else:
+                    return []
+        return names
+    return []
 
 
 def _suffix_strip_sites(ck, ls: FA):
@@ -1724,19 +1789,30 @@ def check_listing_filters(ck, R):
     counted against `limit`; nothing narrows the listing afterwards."""
     ls = FA(ck, FSDS + ".list_keys_nonversioned")
     walkers = _walkers(ck, ls)
+    # a walker that was hoisted out of the listing receives what it used to capture: under which of its own parameter names
+    # do the listing's `limit` / `endswith` / `file_prefix` arrive (identity for a closure)
+    passed = {}
+    for c in ls.calls():
+        for w in _walker_of_call(ls, walkers, c):
+            wp = [p_ for p_ in walkers[w].params if p_ not in ("self", "cls")]
+            for (pn, a) in _bind(c, wp).items():
+                if isinstance(a, ast.Name) and a.id in ls.fi.params:
+                    passed.setdefault(w, {})[a.id] = pn
     for name, sub in walkers.items():
         f = FA(ck, sub)
+        lim = passed.get(name, {}).get("limit", "limit")
         # the counter is the local that is compared with `limit`
-        cmpd = {x.id for n_ in A.walk_body(sub.node) if isinstance(n_, ast.Compare) and "limit" in A.names_in(n_) for x in ast.walk(n_) if isinstance(x, ast.Name)} - {"limit"}
+        cmpd = {x.id for n_ in A.walk_body(sub.node) if isinstance(n_, ast.Compare) and lim in A.names_in(n_) for x in ast.walk(n_) if isinstance(x, ast.Name)} - {lim}
         counts = [s_ for s_ in f.stmts(ast.AugAssign) if isinstance(s_.target, ast.Name) and s_.target.id in cmpd]
         if not counts:
             continue
-        for flt in ("endswith", "file_prefix"):
+        for flt0 in ("endswith", "file_prefix"):
+            flt = passed.get(name, {}).get(flt0, flt0)
             tests = [n.id for n in f.cfg.nodes if n.kind == "test" and flt in A.names_in(n.ast)]
             ok = bool(tests) and all(f.cfg.must_pass(tests, i) for c in counts for i in f.nodes(c))
-            ck.ob(R, f.key(None, "filter-before-count:" + flt), ok, "`%s` is applied before an entry counts against the limit" % flt if ok else
+            ck.ob(R, f.key(None, "filter-before-count:" + flt0), ok, "`%s` is applied before an entry counts against the limit" % flt0 if ok else
                   "in %s an entry is counted against `limit` before the `%s` filter is applied: list_mementos(limit=n) returns fewer than "
-                  "min(n, live) entries when other files (custom metadata) share the directory" % (name, flt), f.where())
+                  "min(n, live) entries when other files (custom metadata) share the directory" % (name, flt0), f.where())
     rets = ls.returns()
     post = []
 
@@ -1746,7 +1822,7 @@ def check_listing_filters(ck, R):
             return True
         if isinstance(e, ast.Call) and isinstance(e.func, ast.Name) and e.func.id in ("list", "tuple") and len(e.args) == 1 and not e.keywords:
             return walk_output(e.args[0], at_nodes, depth)
-        if isinstance(e, ast.Call) and A.call_attr(e) in walkers and (isinstance(e.func, ast.Name) or (isinstance(e.func, ast.Attribute) and isinstance(e.func.value, ast.Name))):
+        if _walker_of_call(ls, walkers, e, at_nodes):
             return True
         if isinstance(e, ast.Name) and depth < 4:
             ds = {}
